@@ -80,12 +80,24 @@ def rule_table(prog, rep, ev):
         rep.finding("C03.TABLE", "apollo_parser::lexer::lookup::NAMESTART_CHARS", "lut", "NAMESTART_CHARS differs from [_A-Za-z]: %s" % fmt(gotb ^ cls(LETTERS + "_")), None)
 
 
+STATE_VAR = [None]  # name of the local that holds the lexer state (whatever it is called)
+
+
 def _state_match(prog):
+    """the state machine's dispatch: the one `match <local>` in Cursor::advance whose arms are
+    variants of lexer::State (the scrutinee's name does not matter)"""
     adv = prog.fn(r"lexer::<impl apollo_parser::lexer::cursor::Cursor<'a>>::advance$")
     body = prog.hir_body(adv)["body"]
-    ms = [n for n in walk(body) if n.get("k") == "match" and n.get("src") == "normal" and local_of(n["scrut"]) == "state"]
+    ms = []
+    for n in walk(body):
+        if n.get("k") == "match" and n.get("src") == "normal" and local_of(n["scrut"]):
+            pats = [p for arm in n["arms"] for p in ([arm["pat"]] if arm["pat"].get("k") != "or" else arm["pat"]["pats"])]
+            hits = [p for p in pats if any("lexer::State::" in str(q.get("res")) for q in walk(p))]
+            if len(hits) >= 5:
+                ms.append(n)
     if len(ms) != 1:
-        raise Undecided("Cursor::advance is no longer one `match state` (found %d): the state-per-arm extractor does not apply" % len(ms))
+        raise Undecided("Cursor::advance is no longer one match over lexer::State (found %d): the state-per-arm extractor does not apply" % len(ms))
+    STATE_VAR[0] = local_of(ms[0]["scrut"])
     return adv, ms[0]
 
 
@@ -99,7 +111,7 @@ def _arm_for_state(m, state):
 
 def _inner_char_match(arm):
     b = strip_expr(arm["body"])
-    if b.get("k") == "match" and local_of(b["scrut"]) == "c":
+    if b.get("k") == "match" and local_of(b["scrut"]):
         return b
     return None
 
@@ -126,7 +138,7 @@ def _has_call(node, name):
 def _next_states(node):
     out = []
     for n in walk(node):
-        if n.get("k") == "assign" and local_of(n["lhs"]) == "state":
+        if n.get("k") == "assign" and local_of(n["lhs"]) == STATE_VAR[0]:
             r = strip_expr(n["rhs"])
             if r.get("k") == "path":
                 out.append(r["res"][4].split("::")[-1] if len(r["res"]) > 4 else r["res"][2].split("::")[-1])
@@ -148,7 +160,7 @@ def rule_strsib(prog, rep, ev):
         if im is None:
             raise Undecided("state %s: arm is not a `match c`" % st)
         for lt in (0x0A, 0x0D):
-            i, a = _arm_taken(ev, im, Char(lt), {"c": Char(lt)})
+            i, a = _arm_taken(ev, im, Char(lt), {local_of(im["scrut"]): Char(lt)})
             if a is None:
                 raise Undecided("state %s: no arm for U+%04X" % (st, lt))
             if _has_call(a["body"], "add_err"):
@@ -162,7 +174,7 @@ def rule_strsib(prog, rep, ev):
         nxt = {}
         for st in body_states:
             im = _inner_char_match(_arm_for_state(m, st))
-            i, a = _arm_taken(ev, im, Char(ch), {"c": Char(ch)})
+            i, a = _arm_taken(ev, im, Char(ch), {local_of(im["scrut"]): Char(ch)})
             nxt[st] = tuple(_next_states(a["body"]))
         if len(set(nxt.values())) == 1:
             rep.instance("C03.STRSIB", "%s leads to %s in both string-body states" % (label, list(nxt.values())[0]))
@@ -171,7 +183,7 @@ def rule_strsib(prog, rep, ev):
     # unicode escape starts with 4 remaining digits
     arm = _arm_for_state(m, "StringLiteralBackslash")
     im = _inner_char_match(arm)
-    i, a = _arm_taken(ev, im, Char(ord("u")), {"c": Char(ord("u"))})
+    i, a = _arm_taken(ev, im, Char(ord("u")), {local_of(im["scrut"]): Char(ord("u"))})
     n4 = [n for n in walk(a["body"]) if n.get("k") == "call" and n.get("callee") and "StringLiteralEscapedUnicode" in str(n["callee"])]
     ok = False
     if n4:
